@@ -88,21 +88,23 @@ func one(w *bufio.Writer, seed uint64, n int, all bool, quota int, long bool, on
 	type plan struct {
 		ks     []int
 		moveOn int
+		drop   bool
 	}
 	var plans []plan
 	if only != "" {
-		// replay of one crashed run: "k1,k2/moveon"
+		// replay of one crashed run: "k1,k2/moveon[d]"  (d: lost announcements are dropped)
 		parts := strings.Split(only, "/")
 		var ks []int
 		for _, f := range strings.Split(parts[0], ",") {
 			v, _ := strconv.Atoi(f)
 			ks = append(ks, v)
 		}
-		m := 0
+		m, drop := 0, false
 		if len(parts) > 1 {
-			m, _ = strconv.Atoi(parts[1])
+			drop = strings.HasSuffix(parts[1], "d")
+			m, _ = strconv.Atoi(strings.TrimSuffix(parts[1], "d"))
 		}
-		plans = append(plans, plan{ks, m})
+		plans = append(plans, plan{ks, m, drop})
 	} else {
 		C := twin.Commits
 		var ks []int
@@ -146,7 +148,7 @@ func one(w *bufio.Writer, seed uint64, n int, all bool, quota int, long bool, on
 			if opt.LongNoWallet {
 				m = 100000
 			}
-			p := plan{[]int{k}, m}
+			p := plan{[]int{k}, m, r.Chance(50)}
 			if r.Chance(25) {
 				p.ks = append(p.ks, 1+r.Intn(6))
 				if r.Chance(30) {
@@ -157,9 +159,12 @@ func one(w *bufio.Writer, seed uint64, n int, all bool, quota int, long bool, on
 		}
 	}
 	for _, p := range plans {
-		res, err := cfsim.RunCrash(s, p.ks, p.moveOn, twin)
+		res, err := cfsim.RunCrash(s, p.ks, p.moveOn, p.drop, twin)
 		ksS := strings.Trim(strings.Replace(fmt.Sprint(p.ks), " ", ",", -1), "[]")
 		id := fmt.Sprintf("%d:k%s/%d", n, ksS, p.moveOn)
+		if p.drop {
+			id += "d"
+		}
 		if err != nil {
 			fmt.Fprintf(w, "X %d harness-error run %s: %v\n", n, id, err)
 			continue
